@@ -70,6 +70,33 @@ class Lane:
         obs = self.oracle(inp, out)
         return (inp, out, obs)
 
+    def default_replay(self, cinp, cse, out, m):
+        """run the concrete case natively (dev, then release), evaluate the lane's own oracle on the native outcome
+        -> (reproduced, key, what, case, detail)"""
+        reproduced = False; key = None; what = None
+        try:
+            nj = native([cse])[0]
+            nout = self.native_outcome(cinp, nj)
+            obs2 = self.oracle(cinp, nout)
+            for n2, ob2 in obs2:
+                v = ob2 if isinstance(ob2, bool) else z3.simplify(ob2)
+                if v is False or (v is not True and v.eq(FALSE)):
+                    reproduced = True
+                    key = self.key(n2, nout)
+                    what = f'{self.name}: "{n2}" violated natively; input {json.dumps(self.in_summary(cinp), default=str)[:300]} -> {json.dumps(self.summary(nout), default=str)[:300]}'
+                    break
+            detail = {'native': nj, 'predicted': self.summary(out, m)}
+            if reproduced:
+                # also in the release profile, which users run
+                try:
+                    nr = native([cse], profile='release')[0]
+                    detail['native_release'] = nr
+                except Exception as e:   # noqa
+                    detail['native_release'] = 'not run: ' + str(e)[:100]
+        except Exception as e:
+            detail = {'replay_error': f'{type(e).__name__}: {e}'}
+        return reproduced, key, what, cse, detail
+
     def on_path(self, ctx, outcome, pc):
         if outcome[0] != 'ret':
             # a panic raised by the oracle itself or a StopAtCall that the lane did not catch
@@ -116,27 +143,9 @@ class Lane:
             except Exception as e:
                 detail = {'replay_error': f'{type(e).__name__}: {e}'}
             return {'kind': 'viol', 'key': key, 'what': what, 'case': cse, 'reproduced': reproduced, 'detail': detail, 'regions': rec['regions']}
-        try:
-            nj = native([cse])[0]
-            nout = self.native_outcome(cinp, nj)
-            obs2 = self.oracle(cinp, nout)
-            for n2, ob2 in obs2:
-                v = ob2 if isinstance(ob2, bool) else z3.simplify(ob2)
-                if v is False or (v is not True and v.eq(FALSE)):
-                    reproduced = True
-                    key = self.key(n2, nout)
-                    what = f'{self.name}: "{n2}" violated natively; input {json.dumps(self.in_summary(cinp), default=str)[:300]} -> {json.dumps(self.summary(nout), default=str)[:300]}'
-                    break
-            detail = {'native': nj, 'predicted': self.summary(out, m)}
-            if reproduced:
-                # also in the release profile, which users run
-                try:
-                    nr = native([cse], profile='release')[0]
-                    detail['native_release'] = nr
-                except Exception as e:   # noqa
-                    detail['native_release'] = 'not run: ' + str(e)[:100]
-        except Exception as e:
-            detail = {'replay_error': f'{type(e).__name__}: {e}'}
+        reproduced, key2, what2, cse, detail = self.default_replay(cinp, cse, out, m)
+        if key2: key = key2
+        if what2: what = what2
         return {'kind': 'viol', 'key': key, 'what': what, 'case': cse, 'reproduced': reproduced, 'detail': detail, 'regions': rec['regions']}
 
 
@@ -144,8 +153,17 @@ def run_lane(chk, lane_cls, params=(), bounds=None, dev=True, selftest=True, twi
     """explore one lane completely, account for it in the evidence, report violations"""
     prog = chk.program(variant)
     t0 = time.time()
-    merged = explore_parallel(prog, lane_cls, params, dev=dev)
+    probe = os.environ.get('VERIF_PROBE')
+    try:
+        merged = explore_parallel(prog, lane_cls, params, dev=dev)
+    except Inconclusive as e:
+        if not probe: raise
+        print(f'PROBE lane {lane_cls.name}{params if len(str(params)) < 60 else ""} INCONCLUSIVE after {time.time() - t0:.0f}s: {str(e)[:120]}', file=sys.stderr, flush=True)
+        chk.inconclusive.append(f'{lane_cls.name}: {str(e)[:200]}')
+        return {'recs': [], 'stats': {}, 'models': [], 'fns': {}, 'cuts': []}
     wall = time.time() - t0
+    if probe:
+        print(f'PROBE lane {lane_cls.name}{params if len(str(params)) < 60 else ""} paths={merged["stats"].get("paths")} wall={wall:.0f}s', file=sys.stderr, flush=True)
     nontrivial = 0
     regions = {}
     for r in merged['recs']:
